@@ -75,6 +75,53 @@ class SchemeArgument(str, Enum):
         return str(order)
 
 
+def _relations_by_boundary(cond) -> dict:
+    """the relations of a condition between a bare symbol and a number, keyed by (symbol, number)"""
+    from sympy.core.relational import Relational
+
+    found: dict = {}
+    for rel in cond.atoms(Relational):
+        lhs, rhs = rel.lhs, rel.rhs
+        if rhs.is_Symbol and lhs.is_number:
+            rel, lhs, rhs = rel.reversed, rhs, lhs
+        if lhs.is_Symbol and rhs.is_number:
+            found.setdefault((lhs, sympy.nsimplify(rhs.doit())), set()).add(rel.rel_op)
+    return found
+
+
+def _keep_boundaries(original: sympy.Piecewise, simplified: sympy.Piecewise) -> sympy.Piecewise:
+    """sympy's simplification of a Piecewise rebuilds each condition from the intervals on which it holds. Whether an
+    end point belongs to an interval is found by substitution, which is inconclusive as soon as the Piecewise has been
+    folded with a condition on other symbols: closed bounds then come back open (`x <= -3` as `x < -3`). A simplified
+    form that contradicts the original on the point of a bound is not used."""
+
+    def strict(op):
+        return op in ("<", ">")
+
+    before = {}
+    for arg in original.args:
+        for key, ops in _relations_by_boundary(arg.cond).items():
+            before.setdefault(key, set()).update(ops)
+    for sub in original.atoms(sympy.Piecewise):
+        for arg in sub.args:
+            for key, ops in _relations_by_boundary(arg.cond).items():
+                before.setdefault(key, set()).update(ops)
+    after = {}
+    for sub in simplified.atoms(sympy.Piecewise) | {simplified}:
+        for arg in sub.args:
+            for key, ops in _relations_by_boundary(arg.cond).items():
+                after.setdefault(key, set()).update(ops)
+    for key, ops in after.items():
+        if key not in before:
+            continue
+        # the point belongs to one side before: it must belong to the same side after. With the operators of a
+        # bound and their negations {<, >=} and {<=, >} are the two consistent families
+        fam = lambda o: {"<": 0, ">=": 0, "<=": 1, ">": 1}.get(o)  # noqa: E731
+        if {fam(o) for o in ops if fam(o) is not None} - {fam(o) for o in before[key] if fam(o) is not None}:
+            return original
+    return simplified
+
+
 def _print_Piecewise(
     printer: CodePrinter, expr: sympy.Piecewise, **kwargs
 ) -> tuple[tuple[str, ...], tuple[str, ...]]:
@@ -112,7 +159,7 @@ def _print_Piecewise(
         # last condition to be literally True, which simplify may rewrite.
         simplified = expr
     if isinstance(simplified, sympy.Piecewise) and simplified.args[-1].cond == True:  # noqa: E712
-        expr = simplified
+        expr = _keep_boundaries(expr, simplified)
 
     exprs = [printer._print(arg.expr) for arg in expr.args]
     conds = [print_cond(arg.cond) for arg in expr.args]
